@@ -70,10 +70,34 @@ def build(vacuity=False, unit='core'):
     vspecs = [('spec/noise_patterns.txt(generated)', pat_vspec)]
     vspecs += [(os.path.relpath(p, ROOT), open(p).read()) for p in sorted(glob.glob(os.path.join(ROOT, 'contracts', '*.vspec')))]
     woven, info = W.weave(src, vspecs, vacuity=vacuity)
+    if vacuity:
+        woven = lemma_vacuity_probes(woven, info)
     os.makedirs(BUILD, exist_ok=True)
     path = os.path.join(BUILD, 'snow_verus%s.rs' % ('_vacuity' if vacuity else ''))
     open(path, 'w').write(woven)
     return ex, woven, info, path
+
+
+def lemma_vacuity_probes(woven, info):
+    """must-fail probe for every tagged lemma (`//# props ...`): `assert(false)` as first statement of its body.
+    A lemma whose hypotheses are contradictory would prove it.  Inserted on the same line -> line numbers unchanged."""
+    lines = woven.split('\n')
+    pend = False
+    name = None
+    for i, l in enumerate(lines):
+        if re.match(r'\s*//# props ', l):
+            pend = True
+            continue
+        if pend:
+            m = re.match(r'\s*(?:#\[[^\]]*\]\s*)*(?:pub )?(?:(?:open|closed|broadcast) )*proof fn (\w+)', l)
+            if m:
+                name = m.group(1)
+            if name and l.rstrip() == '{':
+                lines[i] = '{ assert(false); //@@VACUITY-PROBE-LEMMA ' + name
+                info['line_meta'][i + 1] = {'fn': None, 'label': 'vacuity-probe-lemma', 'props': [], 'kind': 'vacuity', 'where': ('', 0), 'text': name}
+                pend = False
+                name = None
+    return '\n'.join(lines)
 
 
 # --------------------------------------------------------------------------- verus
@@ -216,7 +240,7 @@ def map_diag(model, d, fname):
         for k in range(ln, max(ln - 40, 0), -1):
             mt = model.line_meta.get(k)
             if mt is not None:
-                if mt['fn'] == res['fn'] or res['kind'] == 'postcondition':
+                if mt['kind'] == 'vacuity' or mt['fn'] == res['fn'] or res['kind'] == 'postcondition':
                     meta = mt
                 break
         if meta:
@@ -392,6 +416,11 @@ def check_property(pid, tier, res=None, vres=None, quiet=False):
             failed.setdefault(key, []).append(e)
         elif e.get('label') not in ('safety',) and e.get('props') and pid in e.get('props', []):
             failed.setdefault(key, []).append(e)
+    # functions whose proof hints / loop invariants could not be anchored (the code around them was restructured):
+    # a failure there may be a lost proof rather than a violation -> undecided unless confirmed by a counterexample
+    tainted = {h['fn'] for h in res['model'].info.get('lost_hints', [])}
+    tainted_failed = {k: v for k, v in failed.items() if k[0] in tainted}
+    failed = {k: v for k, v in failed.items() if k[0] not in tainted}
     # functions that failed without any mapped diagnostic (should not happen) -> undecided
     fns_mine = {k[0] for k in mine}
     for fn in fns_mine:
@@ -406,6 +435,8 @@ def check_property(pid, tier, res=None, vres=None, quiet=False):
     if vres is not None:
         probes = {}
         for ln, mt in vres['model'].line_meta.items():
+            if mt['kind'] == 'vacuity' and mt['fn'] is None:
+                mt['fn'] = vres['model'].fn_at(ln)
             if mt['kind'] == 'vacuity' and mt['fn'] in fns_mine:
                 probes[(mt['fn'], mt['label'])] = False
         for e in vres['errors']:
@@ -456,6 +487,11 @@ def check_property(pid, tier, res=None, vres=None, quiet=False):
                        'note': 'Verus gives no counterexample; no concrete failing input was searched/found for this obligation.',
                        'repo': REPO}, open(rp, 'w'), indent=1)
             lines_out.append('VIOLATION property=%s replay=%s obligation=%s no-failing-input-found' % (pid, rp, oid))
+    elif tainted_failed:
+        for l in lines_out:
+            print(l)
+        raise Undecided('obligation(s) %s failed in function(s) whose proof hints lost their anchor (%s); no counterexample available -> not reported as a violation'
+                        % (sorted('%s#%s' % k for k in tainted_failed), sorted({h['anchor'] for h in res['model'].info['lost_hints'] if h['fn'] in {k[0] for k in tainted_failed}})[:3]))
     elif resource:
         raise Undecided('resource limit / solver give-up in %s' % sorted({e.get('fn') for e in resource}))
     # evidence
